@@ -439,8 +439,10 @@ class MerchantEngine:
                 )
                 variables[var_name] = result
             except expr_parser.ExpressionError:
-                # If binding fails, set to None so match can still work
-                variables[var_name] = None
+                # The binding cannot be made for this transaction: leave the name undefined, so
+                # that whatever reads it cannot be evaluated either (bound to None it would read
+                # as false, and `match: not v` would match every transaction it fails for)
+                variables.pop(var_name, None)
         return variables
 
     def _evaluate_fields(
